@@ -103,6 +103,8 @@ def examine(case):
             if f:
                 return f
         return None
+    if case.get("after") is not None:
+        observe(case["after"], None, case["pos"])   # replay the rejected literal that came first
     f = observe(case["lit"], case["decoded"], case["pos"])
     if f:
         return {"bucket": f"{f['kind']}:{case.get('spelling', '?')}:{case.get('class', '?')}:{case['pos']}",
@@ -239,6 +241,15 @@ def run_shard(spec, shard):
                 f = examine(case)
                 if f:
                     shard.fail(f["bucket"], case, f, size=len(lit))
+                # decoding is a function of the literal alone: a literal decoded right after a rejected one
+                # (same environment) must be unaffected by it
+                for nxt, dec in (("'c'", "c"), ('"\\u00e9x"', "\u00e9x")):
+                    case2 = {"lit": nxt, "decoded": dec, "pos": pos, "spelling": "after-rejected:" + kind, "class": "sequence",
+                             "after": lit}
+                    shard.case(key=(lit, nxt, pos), nontrivial=True, classes={"after-rejected"}, sample=None)
+                    f = examine(case2)
+                    if f:
+                        shard.fail(f["bucket"], case2, f, size=len(lit))
         for cp in range(0xD800, 0xE000):
             case = {"kind": "sweep", "lo": cp, "hi": cp + 1}
             shard.evaluations += 8
